@@ -73,6 +73,9 @@ def gen_doc(rng):
     root = {"tag": rng.choice(["root", "Config", "data"]), "attrs": {}, "text": None, "children": []}
     if rng.random() < 0.4:
         root["attrs"]["version"] = rng.choice(["1.0", "2", "beta"])
+    if rng.random() < 0.35:
+        # root attributes are kept verbatim (text, not typed values): words and spellings a typing step would change
+        root["attrs"][rng.choice(["standalone", "validated", "strict", "level"])] = rng.choice(["True", "FALSE", "true", "None", "007", "1.50", "on", " x ", "NULL"])
     budget = [rng.choice([3, 8, 25])]
     for _ in range(rng.randrange(1, 5)):
         root["children"].append(gen_elem(rng, 1, budget))
